@@ -131,4 +131,14 @@ def install_layout(libs):
     out["empty/plugin"] = (os.path.join(root, "empty", "libplugin.so"), None)        # directory exists, file does not
     out["nodir/plugin"] = (os.path.join(root, "no", "such", "dir", "libplugin.so"), None)
     out["same/missing"] = (os.path.join(root, "same", "libfour.so"), None)
+    # a library named WITHOUT a directory: the dynamic loader finds it on its search path (the checks run the
+    # interpreter with LD_LIBRARY_PATH=<root>/search); a bare name that is nowhere on the path is a missing library
+    os.makedirs(os.path.join(root, "search"), exist_ok=True)
+    shutil.copyfile(libs["B"], os.path.join(root, "search", "libsearchonly.so"))
+    out["search/bare"] = ("libsearchonly.so", "B")
+    out["search/bare_missing"] = ("libnowhere_on_the_search_path.so", None)
     return out
+
+
+def search_dir():
+    return os.path.join(core.WORK, "ffi_libs", "search")
